@@ -246,6 +246,8 @@ func lenFactsBoundIn(facts []cmpFact, s ssa.Value, ctx *ssa.Call) (min int64, eq
 // indexSafe decides whether slice[idx] at instruction `at` is protected by
 // dominating length facts. Returns a short justification.
 func indexSafe(at ssa.Instruction, slice, idx ssa.Value, baseMin int64) (bool, string) {
+	boundAt = at.Block()
+	defer func() { boundAt = nil }()
 	facts := cmpFactsAt(at.Block())
 	min, eqTo := lenFactsBound(facts, slice)
 	if baseMin > min {
@@ -349,10 +351,49 @@ func paramLowerBound(v ssa.Value, ctx *ssa.Call) (int64, bool) {
 	return intLowerBound(v, ctx, 0)
 }
 
+// boundAt: the block at which a lower bound is being asked for (set by indexSafe): phi edges that
+// contradict what is known there do not count.
+var boundAt *ssa.BasicBlock
+
+// edgeInfeasibleAt: the CFG edge pred->blk carries a branch condition whose opposite is known at `at`.
+func edgeInfeasibleAt(pred, blk, at *ssa.BasicBlock) bool {
+	known := expandConds(impliedConds(at))
+	for _, fe := range expandConds(edgeCondsRaw(pred, blk)) {
+		for _, fa := range known {
+			if fa.Cond == fe.Cond && fa.True != fe.True {
+				return true
+			}
+		}
+	}
+	return false
+}
+
 func intLowerBound(v ssa.Value, ctx *ssa.Call, depth int) (int64, bool) {
 	v = stripConvInt(v)
 	if k, ok := constInt(v); ok {
 		return k, true
+	}
+	// a value chosen by an earlier branch (min := 2; if closing { min = 1 }): the smallest feasible alternative
+	if ph, ok := v.(*ssa.Phi); ok && depth <= 4 {
+		min := int64(1 << 40)
+		any := false
+		for i, e := range ph.Edges {
+			if boundAt != nil && i < len(ph.Block().Preds) && edgeInfeasibleAt(ph.Block().Preds[i], ph.Block(), boundAt) {
+				continue
+			}
+			k, ok := intLowerBound(e, ctx, depth+1)
+			if !ok {
+				return 0, false
+			}
+			any = true
+			if k < min {
+				min = k
+			}
+		}
+		if any {
+			return min, true
+		}
+		return 0, false
 	}
 	prm, ok := v.(*ssa.Parameter)
 	p := theProg
